@@ -73,4 +73,88 @@ theorem select_eager_eq_lazy (r : Rel) (a b : Rat) (t e : Out) (ht : t ≠ .othe
     selectEager r (.val a) (.val b) t e = selectLazy r (.val a) (.val b) (fun _ => t) (fun _ => e) := by
   simp [selectEager, selectLazy, ht, he]
 
+/-! ### helpers for the property theorems -/
+
+open Lcapy.Spec.SpecialFn (Fn spec disc inDomain) in
+section
+namespace S
+export Lcapy.Spec.SpecialFn (heaviside unitstep unitimpulse)
+end S
+
+theorem trap_linear (x a : Rat) (ha : a ≠ 0) : 1 / 2 - (x - 1 / 2) / a = ((1 + a) / 2 - x) / a := by
+  field_simp; ring
+
+theorem causalFn_neg (f : Fn) (y : Rat) (hf : isCausalFn f = true) (hy : y < 0) : spec f y = some 0 := by
+  have hy0 : y ≠ 0 := ne_of_lt hy
+  cases f <;> simp_all [isCausalFn, spec, S.heaviside, S.unitstep, S.unitimpulse]
+
+theorem prod_val (t : List Factor) (x : Rat) (h : ∀ f ∈ t, ∃ v, specEval f.toE x = .val v) :
+    ∃ v, specEval (prodE t) x = .val v := by
+  induction t with
+  | nil => exact ⟨1, rfl⟩
+  | cons f rest ih =>
+    obtain ⟨v, hv⟩ := h f (List.mem_cons_self ..)
+    obtain ⟨w, hw⟩ := ih (fun g hg => h g (List.mem_cons_of_mem _ hg))
+    exact ⟨v * w, by simp [prodE, specEval, hv, hw, arith2]⟩
+
+theorem causal_term_zero (t : List Factor) (x : Rat) (hx : x < 0)
+    (hv : ∀ f ∈ t, ∃ v, specEval f.toE x = .val v) (hc : hasCausalFactor t = true) :
+    specEval (prodE t) x = .val 0 := by
+  induction t with
+  | nil => simp [hasCausalFactor] at hc
+  | cons f rest ih =>
+    obtain ⟨w, hw⟩ := prod_val rest x (fun g hg => hv g (List.mem_cons_of_mem _ hg))
+    have hrest := fun h => ih (fun g hg => hv g (List.mem_cons_of_mem _ hg)) h
+    obtain ⟨v, hfv⟩ := hv f (List.mem_cons_self ..)
+    have tail : hasCausalFactor rest = true → specEval (prodE (f :: rest)) x = .val 0 := by
+      intro h
+      simp [prodE, specEval, hfv, hrest h, arith2]
+    cases f with
+    | plain e => exact tail (by simpa [hasCausalFactor] using hc)
+    | fn g a b =>
+      by_cases hg : isCausalFn g = true
+      · have head : a * x + b < 0 → specEval (prodE (Factor.fn g a b :: rest)) x = .val 0 := by
+          intro hneg
+          simp [prodE, specEval, Factor.toE, hw, arith2, appOut, causalFn_neg g _ hg hneg, Out.ofOption]
+        simp only [hasCausalFactor, hg, Bool.not_true, Bool.false_eq_true, if_false] at hc
+        split_ifs at hc with h1 h2 h3
+        · simp only [Bool.and_eq_true, beq_iff_eq] at h1
+          exact head (by rw [h1.1, h1.2]; linarith)
+        · simp only [Bool.and_eq_true, decide_eq_true_eq] at h3
+          exact head (by nlinarith [h3.1, h3.2])
+        · exact tail hc
+      · simp only [hasCausalFactor, hg, Bool.not_false, if_true] at hc
+        exact tail hc
+
+theorem mapM_some_iff {α β : Type} (g : α → Option β) (xs : List α) (vs : List β) :
+    xs.mapM g = some vs ↔ xs.map g = vs.map some := by
+  induction xs generalizing vs with
+  | nil => cases vs <;> simp
+  | cons x rest ih =>
+    cases vs with
+    | nil => cases hg : g x <;> simp [List.mapM_cons, hg]
+             cases hr : rest.mapM g <;> simp
+    | cons v vs' =>
+      cases hg : g x with
+      | none => simp [List.mapM_cons, hg]
+      | some w =>
+        cases hr : rest.mapM g with
+        | none =>
+          have : ¬ (rest.map g = vs'.map some) := fun h => by rw [(ih vs').mpr h] at hr; cases hr
+          simp [List.mapM_cons, hg, hr, this]
+        | some us =>
+          have := (ih us).mp hr
+          simp only [List.mapM_cons, hg, hr, List.map_cons, Option.pure_def, Option.bind_eq_bind, Option.bind_some]
+          constructor
+          · intro h; cases h; simp [this]
+          · intro h
+            simp only [List.cons.injEq, Option.some.injEq] at h
+            obtain ⟨rfl, h2⟩ := h
+            have : us = vs' := by
+              have h3 : us.map some = vs'.map some := by rw [← this, h2]
+              exact List.map_injective_iff.mpr (Option.some_injective _) h3
+            rw [this]
+
+end
+
 end Lcapy.C17
